@@ -495,3 +495,61 @@ def d6_7(ctx):
             ctx.violation(key, probs[0][0], f"{c.name} (decoder {dd.name}._decode): {probs[0][1]}; decode(encode('')) fails")
         else:
             ctx.ok(key, dfn, f"{c.name}: a zero count returns the empty value without reading (decoder {dd.name}._decode)")
+
+
+@rule(P, "D6.8", "T-WITNESS", floor=10)
+def d6_8(ctx):
+    """Fixed-width numeric types decode to exactly what struct unpacks and encode exactly what they are given: a class with a
+    struct format either inherits the ElementaryDataType codec or its own `_decode` / `_encode` is the identity around it on
+    witness values (integers at the type's boundaries; single/double precision values that need all their digits)."""
+    import struct as _st
+
+    from ..miniinterp import run_function
+
+    base = ctx.model.cls(f"{DT}:ElementaryDataType")
+    n = 0
+    for c in datatype_classes(ctx):
+        fmt = ctx.folder.class_attr(c, "_format")
+        if not (isinstance(fmt, str) and fmt):
+            continue
+        n += 1
+        ch = fmt[-1]
+        if ch in "fd":
+            f32 = lambda x: _st.unpack("<f", _st.pack("<f", x))[0]  # noqa: E731
+            ws = [f32(0.1), 16777215.0, f32(1 + 2 ** -23), f32(3.4028234663852886e38), f32(1 / 3), -f32(123456.789), 0.0, 1.5] if ch == "f" else [0.1, 1 + 2 ** -52, 1.7976931348623157e308, 1 / 3, -123456.789, 0.0]
+        else:
+            size = _st.calcsize("<" + ch)
+            signed = ch.islower()
+            lo, hi = (-(1 << (8 * size - 1)), (1 << (8 * size - 1)) - 1) if signed else (0, (1 << (8 * size)) - 1)
+            ws = sorted({lo, hi, 0, 1, hi - 1, lo + 1, hi // 3})
+        for meth in ("_decode", "_encode"):
+            dc, fn = effective(ctx, c, meth)
+            key = ckey(c.key, f"{meth}#identity")
+            if dc is base or fn is None:
+                ctx.ok(key, c.node, f"{meth} is the inherited struct codec")
+                continue
+            bad, und = [], None
+            for w in ws:
+                def hook(call, env, it, _w=w):
+                    f_ = call.func
+                    if isinstance(f_, ast.Attribute) and f_.attr == meth and isinstance(f_.value, ast.Call) and call_name(f_.value) == "super":
+                        # the inherited codec: decode yields the unpacked witness, encode packs what it is handed
+                        if meth == "_decode":
+                            return _w
+                        arg = it.ev(call.args[0], env) if call.args else UNKNOWN
+                        return ("packed", arg)
+                    return UNKNOWN
+
+                p_ = fn.args.args[1].arg if len(fn.args.args) > 1 else "value"
+                kind, res = run_function(ctx, dc.module, fn, {"cls": None, p_: (None if meth == "_decode" else w)}, call_hook=hook)
+                if kind == "unknown":
+                    und = res
+                    break
+                want = w if meth == "_decode" else ("packed", w)
+                if kind != "return" or res != want or (isinstance(w, float) and isinstance(res, float) and _st.pack("<d", res) != _st.pack("<d", w)):
+                    bad.append(f"{w!r} -> {res!r}")
+            if und is not None:
+                ctx.undecided(key, fn, f"{c.name}.{meth} overrides the struct codec and is not foldable: {und}")
+                continue
+            ctx.check(not bad, key, fn, f"{c.name}.{meth} passes the struct codec's value through unchanged on {len(ws)} witnesses",
+                      f"{c.name}.{meth} alters the value around the struct codec: {bad[:3]} - decode(encode(v)) is no longer v to the type's precision", witnesses=len(ws))
